@@ -121,12 +121,12 @@ fn holds(e: &E, cols: &[String], row: &[V]) -> Result<Option<bool>, RefErr> {
     let mut used = Vec::new();
     e.columns(&mut used);
     for u in &used {
-        match cols.iter().filter(|c| *c == u).count() {
-            0 => return Err(RefErr::MustFail(format!("unknown column {u:?}"))),
-            1 => {}
-            _ => return Err(RefErr::Ambiguous),
+        if !cols.iter().any(|c| c == u) {
+            return Err(RefErr::MustFail(format!("unknown column {u:?}")));
         }
     }
+    // a duplicated name (plain self-joins) denotes the first column carrying
+    // it, as Table::get_column / Row's index do throughout the API
     let lookup = |c: &str| -> V { cols.iter().position(|x| x == c).map(|i| row[i].clone()).unwrap_or(V::Null) };
     let acc = eval_ref(e, &lookup);
     let t: Vec<bool> = acc.iter().map(|v| v.truthy()).collect();
@@ -143,10 +143,8 @@ fn check_names(e: &E, cols: &[String]) -> Result<(), RefErr> {
     let mut used = Vec::new();
     e.columns(&mut used);
     for u in &used {
-        match cols.iter().filter(|c| *c == u).count() {
-            0 => return Err(RefErr::MustFail(format!("unknown column {u:?}"))),
-            1 => {}
-            _ => return Err(RefErr::Ambiguous),
+        if !cols.iter().any(|c| c == u) {
+            return Err(RefErr::MustFail(format!("unknown column {u:?}")));
         }
     }
     Ok(())
@@ -254,10 +252,9 @@ fn exec(q: &Q, db: &[Vec<Vec<V>>; 3], stats: &mut (u32, u32, bool)) -> (Result<R
     let out = (|| -> Result<Rel, RefErr> {
         let mut idx = Vec::new();
         for n in &proj_names {
-            match rel.cols.iter().filter(|c| *c == n).count() {
-                0 => return Err(RefErr::MustFail(format!("unknown column {n:?} in projection"))),
-                1 => idx.push(rel.cols.iter().position(|c| c == n).unwrap()),
-                _ => return Err(RefErr::Ambiguous),
+            match rel.cols.iter().position(|c| c == n) {
+                None => return Err(RefErr::MustFail(format!("unknown column {n:?} in projection"))),
+                Some(i) => idx.push(i),
             }
         }
         if let Some(c) = &cond {
